@@ -223,6 +223,48 @@ fn damaged_texts(tier: Tier) -> Vec<String> {
             push(t.replace(" k=", " k='0' k="));
             push(t.replace("p:k=", "q:k='0' xmlns:q=\"urn:x\" p:k="));
             push(t.replace("xml:id=\"a b\"", "xml:id=\"a b\" id='1'").replace("<a ", "<a><b xml:id='a b'/></a><a "));
+            // duplicate an attribute under every other in-scope prefix bound to the same namespace,
+            // at every attribute occurrence (the synonym may be declared on an ancestor)
+            {
+                let mut decls: Vec<(String, String)> = vec![];
+                let mut rest = t.as_str();
+                while let Some(i) = rest.find("xmlns:") {
+                    let after = &rest[i + 6..];
+                    if let Some(eq) = after.find('=') {
+                        let prefix = after[..eq].trim().to_string();
+                        let v = after[eq + 1..].trim_start();
+                        if let Some(q) = v.chars().next() {
+                            if let Some(end) = v[1..].find(q) {
+                                decls.push((prefix, v[1..1 + end].to_string()));
+                            }
+                        }
+                    }
+                    rest = &rest[i + 6..];
+                }
+                for (p1, u1) in &decls {
+                    for (p2, u2) in &decls {
+                        if p1 != p2 && u1 == u2 {
+                            let needle = format!(" {}:", p1);
+                            let mut from = 0;
+                            while let Some(i) = t[from..].find(&needle) {
+                                let at = from + i;
+                                // the attribute name runs up to '='
+                                if let Some(eq) = t[at + needle.len()..].find('=') {
+                                    let name = &t[at + needle.len()..at + needle.len() + eq];
+                                    if !name.is_empty() && name.chars().all(|c| c.is_alphanumeric()) && !t[..at].ends_with("xmlns") {
+                                        let mut d = String::new();
+                                        d.push_str(&t[..at]);
+                                        d.push_str(&format!(" {}:{}='dup'", p2, name));
+                                        d.push_str(&t[at..]);
+                                        push(d);
+                                    }
+                                }
+                                from = at + needle.len();
+                            }
+                        }
+                    }
+                }
+            }
             push(t.replace("&amp;", "&#0;"));
             push(t.replace("&lt;", "&bogus;"));
             push(t.replace("version=\"1.0\"", "version=\"1.1\""));
